@@ -1,1 +1,2 @@
 from . import leaf  # noqa
+from . import tables  # noqa
